@@ -221,6 +221,73 @@ def r09b(ctx, rep):
     rep.floor("R09b", "mirrored arm pairs", n, 12)
 
 
+def r09e(ctx, rep, rule="R09e"):
+    """`unordered` is answered only for NaN"""
+    from ..shapes import guard_shapes
+    facts = ctx["facts"]
+    rep.rule(rule, "unordered only for NaN: the order is total on everything but NaN, infinities included. (1) In a comparison "
+             "helper that converts a float with BigRational::from_float (which fails for NaN and for both infinities), an "
+             "Option<Ordering>::None built on the failed-conversion edge is dominated by the true edge of an is_nan test of "
+             "that float. (2) A helper that answers None whenever a conversion fails, without looking (cmp_exact), is called "
+             "only from arms of eq / partial_cmp whose operands are both exact, where the conversion cannot fail; "
+             "(3) cmp_with_float is called only from arms with exactly one Float operand.")
+    helpers = {p: f for p, f in facts.fns.items() if p.startswith(CMP_HELPER)}
+    rep.floor(rule, "local comparison helpers", len(helpers), 2)
+    blind = set()
+    for p, f in sorted(helpers.items()):
+        name = p.rsplit("::", 1)[-1]
+        nones = [(bb, s) for bb, j, s in f.stmts() if s["rv"]["k"] == "agg" and s["rv"].get("adt") == "std::option::Option"
+                 and s["rv"].get("variant") == "None" and "Ordering" in s["lhs"]["ty"]]
+        for i, (bb, s_) in enumerate(nones):
+            g = guard_shapes(f, bb, None, 3)
+            key = "%s|%s|None#%d" % (rule, name, i + 1)
+            if any(x.startswith("f64::<f64>::is_nan(") and x.endswith("=T") for x in g):
+                rep.ok(rule, key, "%s answers `unordered` under an is_nan test" % name, [s_["loc"]])
+            else:
+                blind.add(p)
+                rep.ok(rule, key, "%s answers `unordered` whenever a conversion fails, without an is_nan test: admissible only "
+                       "for exact operands (checked at its call sites)" % name, [s_["loc"]], nontrivial=False)
+    n = 0
+    arms_of = {}
+    for path in (EQ, CMP):
+        fn = facts.fns.get(path)
+        if fn is not None:
+            arms_of[path] = number_arms(facts, fn)
+    for p, f in sorted(facts.fns.items()):
+        for bb, t in f.calls():
+            c = callee(t) or ""
+            if c not in helpers:
+                continue
+            n += 1
+            hname = c.rsplit("::", 1)[-1]
+            arm = None
+            for (x, y), reg in arms_of.get(p, {}).items():
+                if y not in ("_", "*") and bb in reg:
+                    arm = (x, y)
+            key = "%s|call|%s|%s|%s" % (rule, hname, short_path(p).rsplit("::", 1)[-1] if p in arms_of else short_path(p),
+                                         ",".join(arm) if arm else "?")
+            if arm is None:
+                if c in blind:
+                    rep.fail(rule, key, "%s calls %s outside the representation-pair arms of eq / partial_cmp: %s answers "
+                             "`unordered` for any operand it cannot convert — that includes +inf and -inf, which are ordered "
+                             "against every number" % (short_path(p), hname, hname), [t["loc"]])
+                else:
+                    rep.ok(rule, key, "%s calls %s (which tests is_nan itself)" % (short_path(p), hname), [t["loc"]], nontrivial=False)
+                continue
+            nfloat = sum(1 for v in arm if v == "Float")
+            if c in blind:
+                (rep.ok if nfloat == 0 else rep.fail)(
+                    rule, key, "%s is reached with exact operands only (%s, %s)" % (hname, arm[0], arm[1]) if nfloat == 0 else
+                    "%s is reached with a Float operand in the (%s, %s) arm: an infinity fails its conversion and the pair is "
+                    "reported unordered" % (hname, arm[0], arm[1]), [t["loc"]])
+            else:
+                (rep.ok if nfloat == 1 else rep.fail)(
+                    rule, key, "%s is reached from the (%s, %s) arm: one exact operand against one float" % (hname, arm[0], arm[1])
+                    if nfloat == 1 else "%s is called from the (%s, %s) arm, which has %d Float operands" % (hname, arm[0], arm[1], nfloat),
+                    [t["loc"]])
+    rep.floor(rule, "calls of the comparison helpers", n, 16)
+
+
 ORDER_USERS = ["num_equal", "lt", "gt", "lteq", "gteq", "num_comp", "zero", "positive", "negative", "min", "max"]
 
 
@@ -514,6 +581,53 @@ def r08a(ctx, rep):
                 "the %s remainder is reached only after an is_integer test failed (integer-valued operands take fixnum_rem)" % tyw if guarded else
                 "the %s remainder can be reached with integer-valued rational operands (no failed is_integer test dominates it): "
                 "MIN %% -1/1 overflows inside Ratio's %%" % tyw, [t["loc"]])
+
+
+def r08e(ctx, rep, rule="R08e"):
+    facts = ctx["facts"]
+    rep.rule(rule, "integers are closed under the integer operations: in the arms of +, -, *, remainder, quotient whose operands "
+             "are both integer representations (Fixnum, BigInt) and in the Fixnum / BigInt arms of abs, round, floor, ceil, "
+             "truncate, pow, numerator, denominator, no step leaves the exact domain — no int-to-float cast and no to_f64. "
+             "The mathematical result of such an operation is an integer and always fits a BigInt, so a float there "
+             "turns an exact answer into an inexact one. (`/` is exempt: it falls back to a float by design when the "
+             "quotient does not fit a Ratio<i32>.)")
+    INT = ("Fixnum", "BigInt")
+    n = 0
+    for name, path in BINOPS.items():
+        if name == "div":
+            continue
+        fn = need(rep, rule, facts, path)
+        if fn is None:
+            continue
+        for (x, y), reg in sorted(number_arms(facts, fn).items(), key=lambda kv: kv[0]):
+            if x not in INT or y not in INT:
+                continue
+            n += 1
+            lo = lossy_ops(region_facts(fn, reg))
+            key = "%s|%s|%s,%s" % (rule, name, x, y)
+            if lo:
+                rep.fail(rule, key, "%s(%s, %s) computes through a float (%s): two exact integers give an inexact result" % (
+                    name, x, y, ", ".join(sorted({a for a, _ in lo}))), [l for _, l in lo])
+            else:
+                rep.ok(rule, key, "%s(%s, %s) stays in the exact domain" % (name, x, y), [fn.span])
+    for name in UNOPS:
+        if name == "to_exact":
+            continue
+        fn = need(rep, rule, facts, "marwood::number::Number::" + name)
+        if fn is None:
+            continue
+        for (x,), reg in sorted(number_arms(facts, fn, unary=True).items()):
+            if x not in INT:
+                continue
+            n += 1
+            lo = lossy_ops(region_facts(fn, reg))
+            key = "%s|%s|%s" % (rule, name, x)
+            if lo:
+                rep.fail(rule, key, "%s(%s) computes through a float (%s): an exact integer gives an inexact result" % (
+                    name, x, ", ".join(sorted({a for a, _ in lo}))), [l for _, l in lo])
+            else:
+                rep.ok(rule, key, "%s(%s) stays in the exact domain" % (name, x), [fn.span])
+    rep.floor(rule, "integer arms of the arithmetic operations", n, 36)
 
 
 def r08c(ctx, rep):
